@@ -80,6 +80,10 @@ pub struct Exec {
     pub deferred: Option<Failure>,
     /// report expiry-index inconsistencies at once (check of C10)
     pub strict_index: bool,
+    /// property under check (empty: every oracle failure ends the case)
+    pub focus: String,
+    pub(crate) accounting_broken: bool,
+    stats_broken: bool,
     /// deadline of keys the sweeper removed (for the near-deadline statistics only)
     swept_deadline: BTreeMap<u8, Duration>,
     /// whether the physical-state comparison (hooks) is on
@@ -122,6 +126,9 @@ impl Exec {
             sweeper_held: false,
             deferred: None,
             strict_index: false,
+            focus: String::new(),
+            accounting_broken: false,
+            stats_broken: false,
             swept_deadline: BTreeMap::new(),
             deep: true,
         }
@@ -296,7 +303,9 @@ impl Exec {
             ensure!(used as i128 == self.model.used(), blame, &format!("{}/used-mismatch", blame),
                 "total_weight_used() = {} but the model holds keys weighing {}", used, self.model.used());
         }
-        self.compare_stats()?;
+        if !self.stats_broken && !self.accounting_broken {
+            if let Err(failure) = self.compare_stats() { self.stats_broken = true; self.soft(failure)?; }
+        }
         let (increments, _) = self.cache.verif_sketch_progress();
         if increments < self.last_sketch_increments { self.stats.sketch_resets += 1; }
         self.last_sketch_increments = increments;
@@ -331,42 +340,55 @@ impl Exec {
             ensure!(self.model.held.contains_key(k), blame, &tag("unexpected-key"),
                 "the store holds key {} (id {}) which should not be in the cache", k, id);
         }
+        // accounting (C05): bijection store ids <-> charged ids, matching total. Reported at once by the checks of the
+        // accounting properties; deferred by the others (see `soft`) so that they can observe what the corruption leads to.
         let mut weights: BTreeMap<u64, (u8, i64)> = BTreeMap::new();
-        let mut sum: i128 = 0;
-        for entry in &snapshot.weights {
-            ensure!(weights.insert(entry.id, (entry.key as u8, entry.weight)).is_none(), "C05", "C05/duplicate-weight-id", "weight entry id {} twice", entry.id);
-            sum += entry.weight as i128;
-        }
-        // bijection store ids <-> charged ids
-        for (k, (id, _, _)) in &store {
-            match weights.get(id) {
-                None => return Err(Failure::new("C05", "C05/held-key-uncharged", format!("key {} (id {}) is held by the store but no weight is charged for it", k, id))),
-                Some((weight_key, _)) => ensure!(weight_key == k, "C05", "C05/charge-for-other-key", "id {} is held for key {} but charged for key {}", id, k, weight_key),
+        let accounting = (|| -> Check {
+            let mut sum: i128 = 0;
+            for entry in &snapshot.weights {
+                ensure!(weights.insert(entry.id, (entry.key as u8, entry.weight)).is_none(), "C05", "C05/duplicate-weight-id", "weight entry id {} twice", entry.id);
+                sum += entry.weight as i128;
             }
-        }
-        for (id, (k, weight)) in &weights {
-            let held = store.get(k).map(|(store_id, _, _)| store_id == id).unwrap_or(false);
-            ensure!(held, "C05", "C05/charge-without-entry", "weight {} is charged under id {} for key {} but the store holds no such entry (store ids: {:?})", weight, id, k, store);
-        }
-        ensure!(sum == snapshot.weight_used as i128, "C05", "C05/sum-mismatch", "total weight used {} != sum of charged weights {}", snapshot.weight_used, sum);
+            for (k, (id, _, _)) in &store {
+                match weights.get(id) {
+                    None => return Err(Failure::new("C05", "C05/held-key-uncharged", format!("key {} (id {}) is held by the store but no weight is charged for it", k, id))),
+                    Some((weight_key, _)) => ensure!(weight_key == k, "C05", "C05/charge-for-other-key", "id {} is held for key {} but charged for key {}", id, k, weight_key),
+                }
+            }
+            for (id, (k, weight)) in &weights {
+                let held = store.get(k).map(|(store_id, _, _)| store_id == id).unwrap_or(false);
+                ensure!(held, "C05", "C05/charge-without-entry", "weight {} is charged under id {} for key {} but the store holds no such entry (store ids: {:?})", weight, id, k, store);
+            }
+            ensure!(sum == snapshot.weight_used as i128, "C05", "C05/sum-mismatch", "total weight used {} != sum of charged weights {}", snapshot.weight_used, sum);
+            Ok(())
+        })();
+        let accounting_ok = accounting.is_ok();
+        if let Err(failure) = accounting { self.soft(failure)?; }
+        let adopt: Vec<u8> = self.adopt_weight.iter().copied().collect();
+        let mut field_failure: Option<Failure> = None;
         for (k, entry) in self.model.held.iter_mut() {
             let (id, expiry, soft_deleted) = store[k];
-            if entry.id == 0 { entry.id = id; }
-            ensure!(entry.id == id, blame, &tag("entry-replaced"), "key {} is held under id {} but the model saw it created under id {}", k, id, entry.id);
-            let (_, weight) = weights[&id];
-            if self.adopt_weight.contains(k) {
-                // weight chosen by the implementation (no explicit weight requested): must be positive, then adopted
-                ensure!(weight > 0, "C08", "C08/charged-nonpositive", "key {} is charged {} after an upsert without an explicit weight", k, weight);
-                let delta = weight.wrapping_sub(entry.weight);
-                self.model.stats.weight_added = self.model.stats.weight_added.wrapping_add(delta as u64);
-                entry.weight = weight;
+            if entry.id == 0 || !accounting_ok { entry.id = id; }
+            if entry.id != id { field_failure = Some(Failure::new(blame, &tag("entry-replaced"), format!("key {} is held under id {} but the model saw it created under id {}", k, id, entry.id))); break; }
+            if let Some((_, weight)) = weights.get(&id).copied() {
+                if adopt.contains(k) {
+                    // weight chosen by the implementation (no explicit weight requested): must be positive, then adopted
+                    if weight <= 0 { field_failure = Some(Failure::new("C08", "C08/charged-nonpositive", format!("key {} is charged {} after an upsert without an explicit weight", k, weight))); break; }
+                    let delta = weight.wrapping_sub(entry.weight);
+                    self.model.stats.weight_added = self.model.stats.weight_added.wrapping_add(delta as u64);
+                    entry.weight = weight;
+                }
+                if weight != entry.weight && accounting_ok { field_failure = Some(Failure::new(blame, &tag("weight-mismatch"), format!("key {} is charged {} but should be charged {}", k, weight, entry.weight))); break; }
             }
-            ensure!(weight == entry.weight, blame, &tag("weight-mismatch"), "key {} is charged {} but should be charged {}", k, weight, entry.weight);
-            ensure!(expiry == entry.deadline, blame, &tag("expiry-mismatch"), "key {} has expiry {:?} but should have {:?}", k, expiry, entry.deadline);
-            ensure!(soft_deleted == entry.soft_deleted, blame, &tag("soft-delete-mismatch"), "key {} soft_deleted = {} but should be {}", k, soft_deleted, entry.soft_deleted);
+            if expiry != entry.deadline { field_failure = Some(Failure::new(blame, &tag("expiry-mismatch"), format!("key {} has expiry {:?} but should have {:?}", k, expiry, entry.deadline))); break; }
+            if soft_deleted != entry.soft_deleted { field_failure = Some(Failure::new(blame, &tag("soft-delete-mismatch"), format!("key {} soft_deleted = {} but should be {}", k, soft_deleted, entry.soft_deleted))); break; }
         }
+        if let Some(failure) = field_failure { return Err(failure); }
         self.adopt_weight.clear();
-        ensure!(snapshot.weight_used as i128 == self.model.used(), blame, &tag("used-mismatch"), "total weight used {} but the model holds keys weighing {}", snapshot.weight_used, self.model.used());
+        if accounting_ok && !self.accounting_broken {
+            ensure!(snapshot.weight_used as i128 == self.model.used(), blame, &tag("used-mismatch"), "total weight used {} but the model holds keys weighing {}", snapshot.weight_used, self.model.used());
+        }
+        if !accounting_ok { self.accounting_broken = true; }
         // expiry index: internal bookkeeping whose corruption shows only later (a key swept too early or never). The
         // finding is remembered and reported at the end of the case unless a behavioural oracle fails first, so that
         // the check of every property the corruption leads to can observe its own violation.
@@ -376,6 +398,15 @@ impl Exec {
                 self.deferred = Some(failure);
             }
         }
+        Ok(())
+    }
+
+    /// An oracle failure that does not concern the property under check and does not invalidate the model (accounting,
+    /// counters, the expiry index) is remembered and reported at the end of the case instead of ending it: what the
+    /// corruption leads to (a key lost, a put refused) is then observed by the check of the property it violates.
+    fn soft(&mut self, failure: Failure) -> Check {
+        if self.focus.is_empty() || failure.concerns(&self.focus) { return Err(failure); }
+        if self.deferred.is_none() { self.deferred = Some(failure); }
         Ok(())
     }
 
@@ -594,7 +625,11 @@ impl Exec {
             }
             Some(_) => {
                 // expired, not swept (probe only): must not be answered KeyAlreadyExists
-                ensure!(immediate != Some(St::RejExists), "C07", "C07/put/expired-unswept", "{} on a key past its time-to-live (not yet swept, reads as absent) answered Rejected(KeyAlreadyExists)", what);
+                if immediate == Some(St::RejExists) {
+                    self.soft(Failure::new("C07", "C07/put/expired-unswept", format!("{} on a key past its time-to-live (not yet swept, reads as absent) answered Rejected(KeyAlreadyExists)", what)))?;
+                    self.stats.rejected_exists += 1;
+                    return Ok(None);
+                }
                 Ok(Some(PendingCmd { ack, cmd: Pending::Put { k, value, weight, ttl, issued_now: self.model.now, from_upsert: false } }))
             }
             None => {
